@@ -162,6 +162,15 @@ func convertToEnvoyFilterWrapper(local *config.Config) *EnvoyFilterWrapper {
 			log.Debugf("envoyfilter %s/%s discarded due to missing patch", local.Namespace, local.Name)
 			continue
 		}
+		if cp.Patch.Value == nil {
+			switch cp.Patch.Operation {
+			case networking.EnvoyFilter_Patch_ADD, networking.EnvoyFilter_Patch_REPLACE, networking.EnvoyFilter_Patch_INSERT_BEFORE,
+				networking.EnvoyFilter_Patch_INSERT_AFTER, networking.EnvoyFilter_Patch_INSERT_FIRST:
+				// Also caught by validation. These operations clone the value into the output; without one they would crash.
+				log.Debugf("envoyfilter %s/%s patch discarded due to missing patch value", local.Namespace, local.Name)
+				continue
+			}
+		}
 		cpw := &EnvoyFilterConfigPatchWrapper{
 			Name:      local.Name,
 			Namespace: local.Namespace,
